@@ -66,6 +66,9 @@ type Op struct {
 	Ref        int    `json:"ref,omitempty"`      // cancelobs: index of the observe op
 	ETag       bool   `json:"etag,omitempty"`
 	Ms         int    `json:"ms,omitempty"` // sleep
+	// TokRef > 0 (post/put/get/delete): the request re-uses the token of operation TokRef-1 (which has
+	// returned, or is still outstanding if it was started asynchronously)
+	TokRef int `json:"tokRef,omitempty"`
 }
 
 type Scenario struct {
@@ -578,6 +581,9 @@ func Run(t *testing.T, sc Scenario, track bool) (tr Trace) {
 					break
 				}
 				req.SetToken([]byte{0xA0, byte(i)})
+				if op.TokRef > 0 && op.TokRef <= i {
+					req.SetToken([]byte{0xA0, byte(op.TokRef - 1)})
+				}
 				resp, err := cli.Do(req)
 				cli.ReleaseMessage(req)
 				finish(resp, err)
